@@ -39,6 +39,9 @@ class Rec:
         self.discharged = 0
         self.inconclusive = 0
         self.refuted = []
+        self.n_refuted = 0
+        self._kept_keyed = {}
+        self._kept_unkeyed = 0
         self.reach = 0
         self.paths = 0
         self.aborted = 0
@@ -75,13 +78,27 @@ class Rec:
                     v.update(viol_fn(m))
                 except Exception as e:  # noqa
                     v["viol_fn_error"] = repr(e)
-            if len(self.refuted) < 20:
-                self.refuted.append(v)
-            else:
-                self.notes["refuted_dropped"] = self.notes.get("refuted_dropped", 0) + 1
+            self._keep(v)
         else:
             self.inconclusive += 1
         return r
+
+    def _keep(self, v):
+        """keep counterexamples for replay: separate caps for those that claim
+        to be a listed finding (per key) and for all others"""
+        self.n_refuted += 1
+        fk = v.get("finding_key")
+        if fk is not None:
+            n = self._kept_keyed.get(fk, 0)
+            if n < 4:
+                self._kept_keyed[fk] = n + 1
+                self.refuted.append(v)
+                return
+        elif self._kept_unkeyed < 30:
+            self._kept_unkeyed += 1
+            self.refuted.append(v)
+            return
+        self.notes["refuted_not_kept_for_replay"] = self.notes.get("refuted_not_kept_for_replay", 0) + 1
 
     def concrete_violation(self, label, data):
         """A violation established without a final solver query (e.g. the
@@ -89,8 +106,7 @@ class Rec:
         self.obligations += 1
         v = {"label": label}
         v.update(data)
-        if len(self.refuted) < 20:
-            self.refuted.append(v)
+        self._keep(v)
 
     def add_explore(self, out):
         self.paths += out.paths
@@ -112,6 +128,7 @@ class Rec:
             discharged=self.discharged,
             inconclusive=self.inconclusive,
             refuted=self.refuted,
+            n_refuted=self.n_refuted,
             reach=self.reach,
             paths=self.paths,
             aborted=self.aborted,
@@ -238,7 +255,7 @@ def main(modname, argv=None):
                 results.append(r)
 
     # ---- aggregate
-    agg = dict(obligations=0, discharged=0, inconclusive=0, paths=0, aborted=0, reach=0, validated=0)
+    agg = dict(obligations=0, discharged=0, inconclusive=0, paths=0, aborted=0, reach=0, validated=0, n_refuted=0)
     stats = {}
     unsupported = {}
     entered = set()
@@ -281,14 +298,27 @@ def main(modname, argv=None):
     known_hits = {}
     not_reproduced = []
     seen_sig = set()
+    open_keys = {f["key"] for f in open_findings}
+    per_key = {}
+    # violations that do not claim to be a listed finding are replayed first
+    refuted.sort(key=lambda v: v.get("finding_key") in open_keys)
+    n_unkeyed = 0
     for v in refuted:
         sig = v.get("signature") or json.dumps(v, sort_keys=True, default=str)
         sig = json.dumps(sig, sort_keys=True, default=str) if not isinstance(sig, str) else sig
         if sig in seen_sig:
             continue
         seen_sig.add(sig)
-        if len(seen_sig) > 40:
-            break
+        fk = v.get("finding_key")
+        if fk in open_keys:
+            # a few replays per listed finding are enough to confirm it is still there
+            per_key[fk] = per_key.get(fk, 0) + 1
+            if per_key[fk] > 3:
+                continue
+        else:
+            n_unkeyed += 1
+            if n_unkeyed > 40:
+                continue
         try:
             ok, detail = mod.replay(v)
         except Exception as e:  # noqa
@@ -297,7 +327,6 @@ def main(modname, argv=None):
         if not ok:
             not_reproduced.append(v)
             continue
-        fk = v.get("finding_key")
         hit = next((f for f in open_findings if fk is not None and f["key"] == fk), None)
         if hit is not None:
             known_hits.setdefault(hit["key"], (hit, v))
@@ -351,7 +380,7 @@ def main(modname, argv=None):
             "work_items": len(items),
             "obligations": agg["obligations"],
             "discharged_unsat": agg["discharged"],
-            "refuted_sat": len(refuted),
+            "refuted_sat": agg["n_refuted"],
             "inconclusive_unknown": agg["inconclusive"],
             "paths_infeasible_dropped": agg["aborted"],
             "paths_closed_unsupported": unsupported,
@@ -385,7 +414,7 @@ def main(modname, argv=None):
         print(ln)
     print(
         f"[{pid} {tier}] items={len(items)} paths={agg['paths']} obligations={agg['obligations']} "
-        f"unsat={agg['discharged']} sat={len(refuted)} unknown={agg['inconclusive']} "
+        f"unsat={agg['discharged']} sat={agg['n_refuted']} unknown={agg['inconclusive']} "
         f"unsupported={sum(unsupported.values())} budget_hit={budget_items} queries={stats.get('queries', 0)} "
         f"solver_s={stats.get('solver_s', 0)} validated={agg['validated']} wall={wall}s"
     )
